@@ -36,6 +36,7 @@ const prelude = `(set-option :produce-models true)
 (declare-fun sbyte (Int Int) Int)
 (declare-fun sprefix (Int Int) Bool)
 (declare-fun cond_lock (Int) Int)
+(declare-fun chancap (Int) Int)
 (declare-fun scontains (Int Int) Bool)
 (assert (forall ((a Int)) (! (scontains a a) :pattern ((scontains a a)))))
 (assert (forall ((a Int) (b Int) (t Int)) (! (=> (or (scontains a t) (scontains b t)) (scontains (scat a b) t)) :pattern ((scontains (scat a b) t)))))
